@@ -159,6 +159,9 @@ THEOREMS = THEOREMS + [t for t in [
     "Marwood.Lemmas.Good.loadedB_sound",
     "Marwood.Lemmas.Good.codeOkB_sound",
     "Marwood.Lemmas.Good.loadedQB_sound",
+    "Marwood.Lemmas.Good.immLoadedB_sound",
+    "Marwood.Lemmas.Good.envOkB_sound",
+    "Marwood.Lemmas.Good.codeOkHB_sound",
     "Marwood.Lemmas.Good.replay_sound",
     "Marwood.Lemmas.Good.stepsB_sound",
     "Marwood.Lemmas.Good.installsB_sound",
@@ -206,7 +209,15 @@ META["note"] = META["note"] + (
     "cannot see: string contents (opaque tags in the concrete heap model) and the key->slot map of the global "
     "environment (CHeap keeps keys and slots only); forms containing define-syntax are not sent (the compiler MODEL "
     "answers unsupported). Non-vacuity: Demo.demo_installs (the form #t on the demo machine, through installsB_sound by "
-    "kernel evaluation) and demo_prepared_vmOkP.")
+    "kernel evaluation) and demo_prepared_vmOkP. WAVE 12: the relation was STRENGTHENED IN PLACE with what the slot "
+    "invariant EnvInv of C06 needs (LoadedLam.envLen: the loaded environment map has the model's length; ImmLoaded, "
+    "heap-relative: quoted-data immediates do not point to capturing lambdas, a `lambda id` immediate points to a loading "
+    "of code object id whose IofEnvironment(k) slots are slots of the parent's own map holding the same symbol; dataEB for "
+    "new pairs / vectors; LamEnvOk for the garbage of a rejected form) and the checker with it (loadedB, immLoadedB, "
+    "dataEB, envOkB / codeOkHB; immLoadedB_sound, envOkB_sound, codeOkHB_sound, installsB_sound, garbageB_sound): all real "
+    "prepare_eval calls of the stream are still accepted (1326 quick; 2658 over two seeds), 1300 length-mutated and 52 "
+    "slot-mutated accepted requests are all refused. The theorems above are unchanged in statement; "
+    "prepare_envInv / history_never_panics_from_initial (C06) are the new consumers.")
 
 _streams_r9 = streams
 
